@@ -175,7 +175,7 @@ def enumerate_fault_points(tier):
 def sampled_fault(draw):
     cfg = draw(gen.e2e_config(front=("single", "joint"), max_N=2, max_W=2, max_K=3, t_range=(30, 60), limits=(1, 2, 3, 5),
                               lam_forms=("scalar",), beta_forms=("scalar",), betas=(0.5, 2.0, 10.0, 100.0)))
-    kind = draw(st.sampled_from(["task", "task", "phase", "no_donor", "wrong_input"]))
+    kind = draw(st.sampled_from(["task", "task", "phase", "no_donor", "wrong_input", "bad_lambda"]))
     f = {"kind": kind, "round": draw(st.integers(0, 4)), "cluster": draw(st.integers(0, 2)), "phase": draw(st.sampled_from(list(PHASES))),
          "exc": draw(st.sampled_from(list(faults.EXC_TYPES))), "workers": draw(st.sampled_from([1, 1, 2, 3, 4])),
          "container": draw(st.sampled_from(["list", "tuple", "generator"]))}
@@ -215,6 +215,8 @@ def execute(case, t):
     workers = f["workers"]
     if kind == "wrong_input":
         return _wrong_input(cfg, f, t)
+    if kind == "bad_lambda":
+        return _bad_lambda(cfg, f, t)
     ref = clean_reference(cfg) if kind != "no_donor" else None
     if kind != "no_donor" and ref is None:
         t.discard("clean run does not complete")
@@ -323,6 +325,66 @@ def execute(case, t):
         t.cls("fault_in_round>=1")
     if r >= 1 or workers > 1:
         t.mark_nontrivial({"fault": what, "rounds_in_clean_run": ref["rounds"]})
+
+
+def _bad_lambda(cfg, f, t):
+    """A sparsity weight that is neither a number nor an array: the optimiser's own error is raised inside a pool worker and must
+    travel back to the caller like any other failure (no hang, no worker left, next call unaffected)."""
+    import fast_ticc
+    workers = f["workers"]
+    bad = [None, "0.11", [[0.1]], (0.1,), {"lambda": 0.1}][(f["round"] + f["cluster"]) % 5]
+    ref = clean_reference(cfg)
+    timeout = max(120.0, 200.0 * (ref["wall"] if ref else 1.0))
+    series = e2e.build_series(dict(cfg))
+
+    def call():
+        return _plain_call_with_lambda(cfg, workers, bad, timeout)
+    tr, leftover, timed_out = call()
+    if timed_out:
+        _reap(leftover or [None])
+        t.cls("watchdog_expired_once_then_retried")
+        tr, leftover, timed_out = call()
+    n_left = len(leftover)
+    _reap(leftover or ([None] if timed_out else []))
+    if timed_out:
+        raise Violation(f"with sparsity_weight={bad!r} ({workers} worker(s)) the call did not return within {timeout:.0f} s, twice in a row")
+    if tr.ok:
+        raise Violation(f"a run with sparsity_weight={bad!r} returned a result")
+    if not isinstance(tr.exc, (ValueError, TypeError)):
+        raise Violation(f"sparsity_weight={bad!r} surfaced as {type(tr.exc).__name__}: {str(tr.exc)[:120]}, expected the optimiser's ValueError/TypeError")
+    if n_left:
+        raise Violation(f"{n_left} worker process(es) still alive when the error for sparsity_weight={bad!r} reached the caller")
+    if ref is not None:
+        _check_clean_after(cfg, ref, workers, timeout, f"a failure caused by sparsity_weight={bad!r}")
+    t.cls("kind_bad_lambda")
+    t.cls(f"workers_{workers}")
+    t.mark_nontrivial({"sparsity_weight": repr(bad), "workers": workers, "error": type(tr.exc).__name__})
+
+
+def _plain_call_with_lambda(cfg, workers, lam, timeout):
+    before = set(p.pid for p in multiprocessing.active_children())
+    env_saved = os.environ.get("CUPCAKE_ENABLE_MULTIPROCESSING")
+    run_cfg = dict(cfg, num_processors=max(1, workers))
+    if workers > 1:
+        os.environ["CUPCAKE_ENABLE_MULTIPROCESSING"] = "1"
+    else:
+        os.environ.pop("CUPCAKE_ENABLE_MULTIPROCESSING", None)
+    old = signal.signal(signal.SIGALRM, _alarm)
+    signal.setitimer(signal.ITIMER_REAL, timeout)
+    tr, timed_out = None, False
+    try:
+        tr = e2e.run(run_cfg, sync_pool=False, record_admm=False, extra_kwargs={"sparsity_weight": lam})
+    except Watchdog:
+        timed_out = True
+    finally:
+        signal.setitimer(signal.ITIMER_REAL, 0)
+        signal.signal(signal.SIGALRM, old)
+        if env_saved is None:
+            os.environ.pop("CUPCAKE_ENABLE_MULTIPROCESSING", None)
+        else:
+            os.environ["CUPCAKE_ENABLE_MULTIPROCESSING"] = env_saved
+    leftover = [p for p in multiprocessing.active_children() if p.pid not in before]
+    return tr, leftover, timed_out
 
 
 def _wrong_input(cfg, f, t):
